@@ -486,6 +486,53 @@ def work_policy(chunk, st):
         st.sample({'policy_case': [subset, variant, fmt], 'status': res.status, 'verdict': verdict}, cap=14)
 
 
+# ---- every built-in policy (every version, server and client), audited against a peer configured exactly as it lists (the verdict
+# is "passed") and against the same peer with one cipher taken away / the lists of another policy (the verdict is "failed"), in text
+# and JSON: the status is 0 exactly with a passed verdict and 3 exactly with a failed one, whichever policy was selected
+def builtin_policy_tasks():
+    from props import c05
+    return [(name, fmt) for name in c05.builtin_tasks() for fmt in ('text', 'json')]
+
+
+def work_builtin_policy(chunk, st):
+    from props import c05
+    for name, fmt in chunk:
+        p, gex, variants = c05.builtin_variants(name)
+        vname, kw, hk = variants[0]
+        for drift in ('conforming', 'one-cipher-removed', 'extra-mac'):
+            kw2 = dict(kw)
+            if drift == 'one-cipher-removed':
+                if len(kw['enc']) < 2:
+                    continue
+                kw2['enc'] = list(kw['enc'])[1:]
+            elif drift == 'extra-mac':
+                kw2['mac'] = list(kw['mac']) + ['hmac-frob@example.org']
+            opts = ['-n', '-P', name] + (['-j'] if fmt == 'json' else [])
+            if p['server_policy']:
+                res = H.audit(peer.Server(host_keys=hk, gex=gex, **kw2), opts=opts + ['--skip-rate-test'])
+            else:
+                res = H.client_audit(peer.Client(**kw2), opts=opts)
+            verdict = None
+            if fmt == 'json':
+                try:
+                    verdict = json.loads(res.stdout).get('passed')
+                except ValueError:
+                    verdict = None
+            else:
+                r = report.PolicyText(res.stdout).result
+                verdict = True if r == 'passed' else False if r == 'failed' else None
+            root = ('builtin-policy', name, fmt, drift)
+            st.execution(res.world, outcome=('builtin-policy', res.status, verdict, drift), root=root, nontrivial=root)
+            d = {'policy': name, 'fmt': fmt, 'peer': drift, 'status': res.status, 'verdict': verdict, 'stdout': res.stdout[:300]}
+            if res.hang or res.exc or verdict is None:
+                st.violation('builtin-policy:no-verdict', dict(d, hang=res.hang, exc=res.exc))
+            elif (verdict is True) != (res.status == 0) or (verdict is False) != (res.status == 3):
+                st.violation('builtin-policy:status-%s-verdict-%s' % (res.status, 'passed' if verdict else 'failed'), d)
+            elif verdict != (drift == 'conforming'):
+                st.violation('builtin-policy:verdict-%s-on-%s-peer' % ('passed' if verdict else 'failed', drift), d)
+    st.sample({'builtin_policy_case': list(chunk[0])}, cap=4)
+
+
 def run(tier, seed):
     t0 = time.time()
     st = evidence.Stats()
@@ -521,6 +568,7 @@ def run(tier, seed):
     par.pmap(work_long, long_tasks(), stats=st, chunk=4)
     par.pmap(work_sized, sized_tasks(), stats=st, chunk=4)
     par.pmap(work_policy, policy_cases(), stats=st, procs=1)
+    par.pmap(work_builtin_policy, builtin_policy_tasks(), stats=st, chunk=4)
     from props import delivery as _DL
     par.pmap(_DL.work, _DL.tasks(tier), extra=(('status',),), stats=st, chunk=12)
     from props import decor as _DC
@@ -538,7 +586,7 @@ def run(tier, seed):
         PID, tier, seed, st, t0,
         rule='severity classes {fail, fail+warn, warn, clean, unknown} per category (representatives from the DB: %s); %s; '
              'all selections of total length <=%d x %d option sets; every fault of the menu on the initial connection(s) of archetypes A,E,E1,F,G '
-             '(truncation every %s byte) x {text,json}; policy verdict cases x {text,json}; direction-asymmetric cipher/MAC lists (every class pair, both roles, 4 option sets); the fold oracle over every peer of props/zoo.py x 4 option sets' % (
+             '(truncation every %s byte) x {text,json}; policy verdict cases x {text,json}; every built-in policy x {conforming peer, one cipher removed, one MAC added} x {text,json}: status 0 iff passed, 3 iff failed; direction-asymmetric cipher/MAC lists (every class pair, both roles, 4 option sets); the fold oracle over every peer of props/zoo.py x 4 option sets' % (
                  json.dumps(reps()), 'all four categories crossed at length <=1 plus all pairs of categories with lists of length 0..2'
                  if tier == 'quick' else 'all lists of length 0..2 in all four categories crossed', 2 if tier == 'quick' else 3,
                  len(OPTSETS), '8th' if tier == 'quick' else '1st'),
